@@ -6,7 +6,24 @@ Open Scope Z_scope.
 Fixpoint total (l : list (Z * Z)) : Z :=
   match l with [] => 0 | e :: t => snd e + total t end.
 
-Definition sam_inv (s : sampled) : Prop := sused s = total (scosts s) /\ NoDup (keys (scosts s)).
+Ltac Zify.zify_post_hook ::= Z.div_mod_to_equations.
+
+(** the arithmetic of [wrapping_add] / [wrapping_sub]: a ring homomorphism onto the i64 range *)
+Lemma w64_add_l a b : w64 (w64 a + b) = w64 (a + b).
+Proof. unfold w64. lia. Qed.
+Lemma w64_add_r a b : w64 (a + w64 b) = w64 (a + b).
+Proof. unfold w64. lia. Qed.
+Lemma w64_sub_l a b : w64 (w64 a - b) = w64 (a - b).
+Proof. unfold w64. lia. Qed.
+Lemma w64_sub_r a b : w64 (a - w64 b) = w64 (a - b).
+Proof. unfold w64. lia. Qed.
+Lemma w64_id a : -9223372036854775808 <= a < 9223372036854775808 -> w64 a = a.
+Proof. unfold w64. lia. Qed.
+Lemma w64_range a : -9223372036854775808 <= w64 a < 9223372036854775808.
+Proof. unfold w64. lia. Qed.
+
+(** [used] is the sum of the recorded costs, modulo 2^64 *)
+Definition sam_inv (s : sampled) : Prop := sused s = w64 (total (scosts s)) /\ NoDup (keys (scosts s)).
 
 Lemma total_set_val k c l prev :
   NoDup (keys l) -> find k l = Some prev -> total (set_val k c l) = total l + (c - prev).
@@ -35,9 +52,9 @@ Proof. reflexivity. Qed.
 Lemma sam_increment_inv s k c : sam_inv s -> sam_inv (sam_increment s k c).
 Proof.
   intros [Hu Hnd]. unfold sam_increment. destruct (find k (scosts s)) as [prev|] eqn:E; split; cbn.
-  - rewrite (total_set_val k c _ prev Hnd E). lia.
+  - rewrite (total_set_val k c _ prev Hnd E), Hu, w64_add_r, w64_add_l. reflexivity.
   - now rewrite keys_set_val.
-  - lia.
+  - rewrite Hu, w64_add_r, w64_add_l. f_equal. lia.
   - rewrite keys_cons'. constructor; [now apply find_none_notin|exact Hnd].
 Qed.
 
@@ -45,7 +62,7 @@ Lemma sam_update_inv s k c : sam_inv s -> sam_inv (fst (sam_update s k c)).
 Proof.
   intros [Hu Hnd]. unfold sam_update. destruct (find k (scosts s)) as [prev|] eqn:E; cbn; [|split; auto].
   split; cbn.
-  - rewrite (total_set_val k c _ prev Hnd E). lia.
+  - rewrite (total_set_val k c _ prev Hnd E), Hu, w64_add_r, w64_add_l. reflexivity.
   - now rewrite keys_set_val.
 Qed.
 
@@ -53,7 +70,7 @@ Lemma sam_remove_inv s k : sam_inv s -> sam_inv (fst (sam_remove s k)).
 Proof.
   intros [Hu Hnd]. unfold sam_remove. destruct (find k (scosts s)) as [c|] eqn:E; cbn; [|split; auto].
   split; cbn.
-  - rewrite (total_remove_key k _ c E). lia.
+  - rewrite (total_remove_key k _ c E), Hu, w64_sub_l. reflexivity.
   - rewrite keys_remove_key. now apply nodup_remove1.
 Qed.
 
@@ -84,10 +101,41 @@ Proof. split; cbn; [reflexivity|constructor]. Qed.
 (** ** the property *)
 Theorem room_left_exact mc n ops c :
   let s := samrun (sam_new mc n) ops in
-  sam_room_left s c = smax s - total (scosts s) - c.
+  sam_room_left s c = w64 (smax s - total (scosts s) - c).
 Proof.
   cbn zeta. destruct (samrun_inv ops (sam_new mc n) (sam_new_inv mc n)) as [Hu _].
-  unfold sam_room_left. rewrite Hu. lia.
+  unfold sam_room_left. rewrite Hu, w64_add_l, w64_sub_r. f_equal. lia.
+Qed.
+
+(** ... hence the plain difference whenever that fits an i64 *)
+Corollary room_left_exact_in_range mc n ops c :
+  let s := samrun (sam_new mc n) ops in
+  -9223372036854775808 <= smax s - total (scosts s) - c < 9223372036854775808 ->
+  sam_room_left s c = smax s - total (scosts s) - c.
+Proof. cbn zeta. intros H. rewrite room_left_exact. now apply w64_id. Qed.
+
+(** ** no overflow: whatever i64 costs are passed, [used] and every result stay i64 values (the code computes
+    them with wrapping operations, which cannot panic) *)
+Definition in64 (z : Z) : Prop := -9223372036854775808 <= z < 9223372036854775808.
+
+Lemma samstep_used_in64 s o : in64 (sused s) -> in64 (sused (fst (samstep_t s o))).
+Proof.
+  intros H. destruct o; cbn [samstep_t fst]; try exact H.
+  - unfold sam_increment. destruct (find k (scosts s)); cbn [sused]; apply w64_range.
+  - unfold sam_update. destruct (find k (scosts s)); cbn [fst sused]; [apply w64_range|exact H].
+  - unfold sam_remove. destruct (find k (scosts s)); cbn [fst sused]; [apply w64_range|exact H].
+  - cbn. unfold in64. lia.
+Qed.
+
+Theorem samrun_used_in64 ops : forall s, in64 (sused s) -> in64 (sused (samrun s ops)).
+Proof.
+  induction ops as [|o t IH]; intros s H; cbn; [exact H|]. apply IH. now apply samstep_used_in64.
+Qed.
+
+Theorem sampled_no_overflow mc n ops c :
+  let s := samrun (sam_new mc n) ops in in64 (sused s) /\ in64 (sam_room_left s c).
+Proof.
+  cbn zeta. split; [apply samrun_used_in64; cbn; unfold in64; lia|apply w64_range].
 Qed.
 
 Theorem update_reports_tracked s k c :
